@@ -195,8 +195,54 @@ def _run_main(ctx):
     ctx.compare("histories", cases, obs, reqs)
 
 
+def _near_width_boundaries(ctx):
+    """extents and paddings whose every *stored* value fits a narrow integer width while the arithmetic of the shape formula
+    (n + 2p, d(k-1)) does not: what a file hands back must infer like the original"""
+    import nir
+    rng = ctx.rng
+    for _ in range(ctx.n(24, 96)):
+        lim = rng.choice([127, 255, 32767, 65535])
+        p = rng.randrange(1, 5)
+        n = [lim - rng.randrange(0, 2 * p) for _ in range(2)]
+        k, st = rng.randrange(1, 4), rng.randrange(1, 3)
+        c = rng.randrange(1, 3)
+        arrform = rng.random() < 0.7
+        f = (lambda v: np.array([v, v])) if arrform else (lambda v: (v, v))
+        kind = rng.choice(["SumPool2d", "AvgPool2d", "Conv2d"])
+        if kind == "Conv2d":
+            mid = nir.Conv2d(None, np.zeros((2, c, k, k), dtype="float32"), f(st), f(p), f(1), 1, np.zeros(2, dtype="float32"))
+            cout = 2
+        else:
+            mid = getattr(nir, kind)(kernel_size=f(k), stride=f(st), padding=f(p))
+            cout = c
+        o = [(x + 2 * p - (k - 1) - 1) // st + 1 for x in n]
+        want = {"in": ([c] + n, [c] + n), "mid": ([c] + n, [cout] + o), "out": ([cout] + o, [cout] + o)}
+        g = nir.NIRGraph(nodes={"in": nir.Input(np.array([c] + n)), "mid": mid, "out": nir.Output(None)},
+                         edges=[("in", "mid"), ("mid", "out")])
+        h = rng.choice([["infer", "file_rt", "infer"], ["infer", "file_rt", "file_rt", "infer"], ["infer", "file_rt", "dict_rt", "infer"]])
+        case = {"op": "near_width_boundary", "kind": kind, "extent": n, "padding": p, "kernel": k, "stride": st,
+                "array_valued": arrform, "ops": h}
+        ctx.case(case); ctx.count("near_width_boundary_" + kind)
+        try:
+            cur = g
+            for op in h:
+                cur = apply_op(cur, op)
+        except Exception as e:  # noqa
+            ctx.violate(case, "an operation of the history raised on a consistent graph", {"site": "history", "what": "raised",
+                                                                                           "family": "near-width-boundary"},
+                        observed=f"{type(e).__name__}: {e}")
+            continue
+        got = types_of(cur)
+        bad = [kk for kk, (ti, to) in want.items() if got.get(kk) != ({"input": ti}, {"output": to})]
+        if bad:
+            ctx.violate(case, "inference after the operation history does not give the types of inferring the original graph",
+                        {"site": "history", "what": "commute", "family": "near-width-boundary", "kinds": [kind]},
+                        observed={kk: got.get(kk) for kk in bad[:3]}, required={kk: list(want[kk]) for kk in bad[:3]})
+
+
 def run(ctx):
     _run_main(ctx)
+    _near_width_boundaries(ctx)
     # history independence: the same call on a live graph object with a history of edits / calls and on a twin rebuilt
     # from its public state (harness/history.py)
     import history
